@@ -45,6 +45,24 @@ static int g_replay;
 
 #define MAXSTATES	20000
 
+/* the virtual zones UTC/TAI/GPS are static objects inside lib/tzraw.c: a "fresh handle" on them is the
+ * object with its cache as a new process has it (all zero) */
+static int
+virtual_p(const struct zc_src *s)
+{
+	return !strncmp(s->name, "virt:", 5);
+}
+
+static zif_t
+vfresh(const struct zc_src *s)
+{
+	zif_t z = zc_fresh(s);
+	if (z != NULL && virtual_p(s)) {
+		z->cache = (struct zrng_s){0};
+	}
+	return z;
+}
+
 static int
 rng_eq(struct zrng_s a, struct zrng_s b)
 {
@@ -224,7 +242,7 @@ report(const struct zc_src *s, int si, size_t qi, const char *what, const char *
 	va_start(ap, fmt);
 	vsnprintf(detail, sizeof(detail), fmt, ap);
 	va_end(ap);
-	snprintf(key, sizeof(key), "zifcache %s %s state=%s query=%s", what, s->sys ? "installed" : "synthetic",
+	snprintf(key, sizeof(key), "zifcache %s %s state=%s query=%s", what, s->sys ? "installed" : virtual_p(s) ? "virtual" : "synthetic",
 		 state_kind(s, sts[si].c), rel_kind(sts[si].c, q->t));
 	/* millions of cases per class: format the example only when it will be kept */
 	if (!g_replay) {
@@ -277,7 +295,31 @@ build_ops(const struct zc_src *s)
 	size_t n = 0, k = 0;
 	EX_CTR(c_skiph, "skipped:operation that does not return even on a fresh handle (C12's finding), left out of the alphabet");
 
-	if (m->ntr == 0) {
+	if (virtual_p(s)) {
+		/* the leap-second table behind TAI and GPS: every entry -1/0/+1/+2 s and the middle of every interval */
+		free(ts);
+		ts = malloc(sizeof(*ts) * (5 * nleaps_s + 16));
+		for (size_t i = 0; i < nleaps_s; i++) {
+			int64_t l = leaps_s[i];
+			if (l <= INT32_MIN + 4 || l >= INT32_MAX - 4) {
+				continue;
+			}
+			ts[n++] = l - 1;
+			ts[n++] = l;
+			ts[n++] = l + 1;
+			ts[n++] = l + 2;
+			if (i + 1 < nleaps_s && leaps_s[i + 1] < INT32_MAX - 4) {
+				ts[n++] = l + (leaps_s[i + 1] - l) / 2;
+			}
+		}
+		ts[n++] = -1;
+		ts[n++] = 0;
+		ts[n++] = 315964799LL;	/* the GPS epoch */
+		ts[n++] = 315964800LL;
+		ts[n++] = 2147483647LL;
+		ts[n++] = 2147483648LL;
+		ts[n++] = 2200000000LL;
+	} else if (m->ntr == 0) {
 		ts[n++] = -1000000000LL;
 		ts[n++] = 0;
 		ts[n++] = 1000000000LL;
@@ -307,11 +349,11 @@ build_ops(const struct zc_src *s)
 		memset(&o, 0, sizeof(o));
 		o.op = 'L';
 		o.t = ts[i];
-		z = zc_fresh(s);
+		z = vfresh(s);
 		o.fresh_rc = call(z, 'L', ts[i]);
 		o.fresh = g_out;
 		zif_close(z);
-		z = zc_fresh(s);
+		z = vfresh(s);
 		o.fresh_rng_rc = call(z, 'R', ts[i]);
 		o.fresh_rng = g_rng;
 		zif_close(z);
@@ -325,7 +367,7 @@ build_ops(const struct zc_src *s)
 		memset(&o, 0, sizeof(o));
 		o.op = 'U';
 		o.t = local;
-		z = zc_fresh(s);
+		z = vfresh(s);
 		o.fresh_rc = call(z, 'U', local);
 		o.fresh = g_out;
 		zif_close(z);
@@ -419,7 +461,7 @@ run_src(struct zc_src *s)
 	build_ops(s);
 	nsts = 0;
 	memset(htab, 0, sizeof(htab));
-	if ((z = zc_fresh(s)) == NULL) {
+	if ((z = vfresh(s)) == NULL) {
 		ex_viol("zifcache zif_open fails", 0, s->name, NULL, "%s: zif_open returns NULL", s->name);
 		free(ops);
 		return;
@@ -427,7 +469,7 @@ run_src(struct zc_src *s)
 	add_state(z->cache, -1, -1);
 	for (head = 0; head < nsts && !ex_expired(); head++) {
 		/* enter the state through its history, on a fresh handle */
-		zif_t h = zc_fresh(s);
+		zif_t h = vfresh(s);
 		if (replay_history(h, (int)head) || !rng_eq(h->cache, sts[head].c)) {
 			fprintf(stderr, "c13_zifcache: replaying the history of state %zu of %s does not reproduce it\n", head, s->name);
 			exit(3);
@@ -485,14 +527,21 @@ main(int argc, char *argv[])
 		int64_t hist_out = 0, fresh_out = 0;
 		struct zrng_s hist_rng, fresh_rng, before;
 
-		if (sscanf(p, "%299s%n", name, &n) != 1 || (rc = zc_src_load(name, &s)) < 0) {
+		if (sscanf(p, "%299s%n", name, &n) != 1) {
+			return ex_replay_result(1, "bad case '%s'", ex.cas);
+		}
+		if (!strncmp(name, "virt:", 5)) {
+			memset(&s, 0, sizeof(s));
+			snprintf(s.name, sizeof(s.name), "%s", name);
+			snprintf(s.path, sizeof(s.path), "%s", name + 5);
+		} else if ((rc = zc_src_load(name, &s)) < 0) {
 			return ex_replay_result(1, "bad case '%s'", ex.cas);
 		}
 		p += n;
 		g_replay = 1;
 		zc_wd_limit = 250;
 		zc_src_activate(&s);
-		z = zc_fresh(&s);
+		z = vfresh(&s);
 		while (sscanf(p, " %c %lld%n", &op, &t, &n) == 2 && op != '?') {
 			p += n;
 			if (call(z, op, t)) {
@@ -508,7 +557,7 @@ main(int argc, char *argv[])
 		rc = call(z, op, t);
 		hist_out = g_out;
 		hist_rng = g_rng;
-		f = zc_fresh(&s);
+		f = vfresh(&s);
 		if (call(f, op, t)) {
 			return ex_replay_result(1, "%c(%lld) does not return on a fresh handle", op, t);
 		}
@@ -530,7 +579,8 @@ main(int argc, char *argv[])
 	}
 
 	zc_catalogue(1, 1, ex.thorough ? 5 : 4, ex.thorough);
-	ex_meta("rule", "zif cache closure: for each of %zu installed and %zu synthetic zone files, breadth-first search over the real cache states (prev,next,index,offs) "
+	ex_meta("rule", "zif cache closure: for each of %zu installed and %zu synthetic zone files and the virtual zones UTC, TAI, GPS, +05:30, -01:00 (alphabet: every leap-second table entry "
+		"-1/0/+1/+2 s, interval middles, GPS epoch, 2^31 seam; fresh = the static object with a zeroed cache), breadth-first search over the real cache states (prev,next,index,offs) "
 		"read from struct zif_s; alphabet = first/inner/last instant of every range + one instant before the first transition + one after the last, as "
 		"zif_local_time(t) and zif_utc_time(local image of t); every operation is applied in every reached state (state entered by replaying its discovering "
 		"history on a fresh handle; replay checked), new states are queued until none appears; oracle: the answer equals the fresh-handle answer, "
@@ -558,6 +608,21 @@ main(int argc, char *argv[])
 			}
 		}
 		zc_src_free(&s);
+	}
+	{
+		static const char *const virt[] = {"UTC", "TAI", "GPS", "+05:30", "-01:00"};
+		EX_CTR(c_virt, "virtual_zones_closed");
+		for (size_t i = 0; i < sizeof(virt) / sizeof(*virt) && !ex_expired(); i++) {
+			struct zc_src vs;
+			if (!ex_mine(zc_nnames + i)) {
+				continue;
+			}
+			memset(&vs, 0, sizeof(vs));
+			snprintf(vs.name, sizeof(vs.name), "virt:%s", virt[i]);
+			snprintf(vs.path, sizeof(vs.path), "%s", virt[i]);
+			run_src(&vs);
+			++*c_virt;
+		}
 	}
 	return ex_finish();
 }
